@@ -761,6 +761,64 @@ func (s *listSys) Run(hist []int, check bool) (key string, applicable bool, vs [
 		cvs, ex := s.check(o, m, last)
 		vs = append(vs, cvs...)
 		expand = ex && len(vs) == len(cvs)
+		vs = append(vs, s.checkResultIndependence(hist, m)...)
 	}
 	return s.k.stateKey(o), true, vs, expand, outcome
+}
+
+// checkResultIndependence replays the history on a second fresh object, takes r = self + F and r2 = self * 1,
+// then mutates self (<< / []=) and requires r and r2 to be unchanged: the result of + and * is a new sequence,
+// not a view of its left operand (which may have spare capacity after pops, removes, grows or slices).
+func (s *listSys) checkResultIndependence(hist []int, m []int) (vs []viol) {
+	k := s.k
+	if !k.isList {
+		return nil
+	}
+	o := k.fresh(0)
+	mm := []int{}
+	for _, oi := range hist {
+		if ok, _, _ := s.apply(&o, &mm, s.ops[oi], false); !ok {
+			return nil
+		}
+	}
+	type derived struct {
+		name string
+		val  value.ArrayTuple
+		want []int
+	}
+	var ds []derived
+	defer func() {
+		if p := recover(); p != nil {
+			vs = append(vs, viol{s.sig("result independence: Go panic"), fmt.Sprint(p)})
+		}
+	}()
+	for fi, f := range s.fixed {
+		res, err := o.ConcatVal(k.build(f, 0).ToValue())
+		if isErr(err) {
+			continue // reported by the + observer
+		}
+		if nr, ok := res.SafeAsReference().(value.ArrayTuple); ok {
+			ds = append(ds, derived{fmt.Sprintf("self + F%d%v", fi, f), nr, append(append([]int{}, mm...), f...)})
+		}
+	}
+	if res, err := o.RepeatVal(value.SmallInt(1).ToValue()); !isErr(err) {
+		if nr, ok := res.SafeAsReference().(value.ArrayTuple); ok {
+			ds = append(ds, derived{"self * 1", nr, append([]int{}, mm...)})
+		}
+	}
+	// mutate the left operand: append two elements, then overwrite the first
+	l := o.(value.ArrayList)
+	l.AppendVal(k.val(3))
+	l.AppendVal(k.val(3))
+	if len(mm) > 0 {
+		l.SubscriptSet(value.SmallInt(0).ToValue(), k.val(3))
+	}
+	for _, d := range ds {
+		if what := k.contents(d.val, d.want); what != "" {
+			vs = append(vs, viol{s.sig("the result of + or * changes when its left operand is mutated afterwards (shared storage)"),
+				fmt.Sprintf("%s was taken, then two elements were appended to the receiver and its [0] overwritten: %s\n%s", d.name, what, s.describe(o, mm))})
+			break
+		}
+	}
+	return vs
 }
